@@ -1,0 +1,261 @@
+//go:build verif
+
+// Contracts for the govc verifier (/verif). This file contains comments only; it is compiled
+// only under the build tag "verif" and contributes no declarations.
+package vm
+
+// ---------------------------------------------------------------------------------------------
+// Memory-size arithmetic (C11: overflow-free memory/gas arithmetic). 256-bit words are u256.
+//
+//@ spec fn memOvf(off u256, l u256) bool = l != 0 && (l >= 18446744073709551616 || off >= 18446744073709551616 || off + l >= 18446744073709551616)
+//@ spec fn memSz(off u256, l u256) uint64 = ite(l == 0, uint64(0), extract(63, 0, off + l))
+//@ spec fn max64(a uint64, b uint64) uint64 = ite(a > b, a, b)
+
+//@ func calcMemSize64WithUint
+//@   property C11
+//@   requires off != nil
+//@   ensures [ovf]  result1 == memOvf(u256(off), zext(256, length64))
+//@   ensures [size] !result1 ==> result0 == memSz(u256(off), zext(256, length64))
+//@   modifies nothing
+
+//@ func calcMemSize64
+//@   property C11
+//@   requires off != nil && l != nil
+//@   ensures [ovf]  result1 == memOvf(u256(off), u256(l))
+//@   ensures [size] !result1 ==> result0 == memSz(u256(off), u256(l))
+//@   modifies nothing
+
+//@ func toWordSize
+//@   property C11
+//@   option inline
+//@   ensures [ceil] wide(result) == (wide(size) + 31) / 32
+//@   modifies nothing
+
+//@ func memorySha3
+//@   property C11
+//@   requires stack != nil && len(stack.data) >= 2
+//@   ensures [ovf]  result1 == memOvf(stack.data[len(stack.data)-1], stack.data[len(stack.data)-2])
+//@   ensures [size] !result1 ==> result0 == memSz(stack.data[len(stack.data)-1], stack.data[len(stack.data)-2])
+//@   modifies nothing
+
+//@ func memoryCallDataCopy
+//@   property C11
+//@   requires stack != nil && len(stack.data) >= 3
+//@   ensures [ovf]  result1 == memOvf(stack.data[len(stack.data)-1], stack.data[len(stack.data)-3])
+//@   ensures [size] !result1 ==> result0 == memSz(stack.data[len(stack.data)-1], stack.data[len(stack.data)-3])
+//@   modifies nothing
+
+//@ func memoryReturnDataCopy
+//@   property C11
+//@   requires stack != nil && len(stack.data) >= 3
+//@   ensures [ovf]  result1 == memOvf(stack.data[len(stack.data)-1], stack.data[len(stack.data)-3])
+//@   ensures [size] !result1 ==> result0 == memSz(stack.data[len(stack.data)-1], stack.data[len(stack.data)-3])
+//@   modifies nothing
+
+//@ func memoryCodeCopy
+//@   property C11
+//@   requires stack != nil && len(stack.data) >= 3
+//@   ensures [ovf]  result1 == memOvf(stack.data[len(stack.data)-1], stack.data[len(stack.data)-3])
+//@   ensures [size] !result1 ==> result0 == memSz(stack.data[len(stack.data)-1], stack.data[len(stack.data)-3])
+//@   modifies nothing
+
+//@ func memoryExtCodeCopy
+//@   property C11
+//@   requires stack != nil && len(stack.data) >= 4
+//@   ensures [ovf]  result1 == memOvf(stack.data[len(stack.data)-2], stack.data[len(stack.data)-4])
+//@   ensures [size] !result1 ==> result0 == memSz(stack.data[len(stack.data)-2], stack.data[len(stack.data)-4])
+//@   modifies nothing
+
+//@ func memoryMLoad
+//@   property C11
+//@   requires stack != nil && len(stack.data) >= 1
+//@   ensures [ovf]  result1 == memOvf(stack.data[len(stack.data)-1], 32)
+//@   ensures [size] !result1 ==> result0 == memSz(stack.data[len(stack.data)-1], 32)
+//@   modifies nothing
+
+//@ func memoryMStore8
+//@   property C11
+//@   requires stack != nil && len(stack.data) >= 1
+//@   ensures [ovf]  result1 == memOvf(stack.data[len(stack.data)-1], 1)
+//@   ensures [size] !result1 ==> result0 == memSz(stack.data[len(stack.data)-1], 1)
+//@   modifies nothing
+
+//@ func memoryMStore
+//@   property C11
+//@   requires stack != nil && len(stack.data) >= 1
+//@   ensures [ovf]  result1 == memOvf(stack.data[len(stack.data)-1], 32)
+//@   ensures [size] !result1 ==> result0 == memSz(stack.data[len(stack.data)-1], 32)
+//@   modifies nothing
+
+//@ spec fn umax256(a u256, b u256) u256 = ite(a > b, a, b)
+//@ func memoryMcopy
+//@   property C11
+//@   requires stack != nil && len(stack.data) >= 3
+//@   ensures [ovf]  result1 == memOvf(umax256(stack.data[len(stack.data)-1], stack.data[len(stack.data)-2]), stack.data[len(stack.data)-3])
+//@   ensures [size] !result1 ==> result0 == memSz(umax256(stack.data[len(stack.data)-1], stack.data[len(stack.data)-2]), stack.data[len(stack.data)-3])
+//@   modifies nothing
+
+//@ func memoryCreate
+//@   property C11
+//@   requires stack != nil && len(stack.data) >= 3
+//@   ensures [ovf]  result1 == memOvf(stack.data[len(stack.data)-2], stack.data[len(stack.data)-3])
+//@   ensures [size] !result1 ==> result0 == memSz(stack.data[len(stack.data)-2], stack.data[len(stack.data)-3])
+//@   modifies nothing
+
+//@ func memoryCreate2
+//@   property C11
+//@   requires stack != nil && len(stack.data) >= 4
+//@   ensures [ovf]  result1 == memOvf(stack.data[len(stack.data)-2], stack.data[len(stack.data)-3])
+//@   ensures [size] !result1 ==> result0 == memSz(stack.data[len(stack.data)-2], stack.data[len(stack.data)-3])
+//@   modifies nothing
+
+//@ func memoryCall
+//@   property C11
+//@   requires stack != nil && len(stack.data) >= 7
+//@   ensures [ovf]  result1 == (memOvf(stack.data[len(stack.data)-6], stack.data[len(stack.data)-7]) || memOvf(stack.data[len(stack.data)-4], stack.data[len(stack.data)-5]))
+//@   ensures [size] !result1 ==> result0 == max64(memSz(stack.data[len(stack.data)-6], stack.data[len(stack.data)-7]), memSz(stack.data[len(stack.data)-4], stack.data[len(stack.data)-5]))
+//@   modifies nothing
+
+//@ func memoryDelegateCall
+//@   property C11
+//@   requires stack != nil && len(stack.data) >= 6
+//@   ensures [ovf]  result1 == (memOvf(stack.data[len(stack.data)-5], stack.data[len(stack.data)-6]) || memOvf(stack.data[len(stack.data)-3], stack.data[len(stack.data)-4]))
+//@   ensures [size] !result1 ==> result0 == max64(memSz(stack.data[len(stack.data)-5], stack.data[len(stack.data)-6]), memSz(stack.data[len(stack.data)-3], stack.data[len(stack.data)-4]))
+//@   modifies nothing
+
+//@ func memoryStaticCall
+//@   property C11
+//@   requires stack != nil && len(stack.data) >= 6
+//@   ensures [ovf]  result1 == (memOvf(stack.data[len(stack.data)-5], stack.data[len(stack.data)-6]) || memOvf(stack.data[len(stack.data)-3], stack.data[len(stack.data)-4]))
+//@   ensures [size] !result1 ==> result0 == max64(memSz(stack.data[len(stack.data)-5], stack.data[len(stack.data)-6]), memSz(stack.data[len(stack.data)-3], stack.data[len(stack.data)-4]))
+//@   modifies nothing
+
+//@ func memoryReturn
+//@   property C11
+//@   requires stack != nil && len(stack.data) >= 2
+//@   ensures [ovf]  result1 == memOvf(stack.data[len(stack.data)-1], stack.data[len(stack.data)-2])
+//@   ensures [size] !result1 ==> result0 == memSz(stack.data[len(stack.data)-1], stack.data[len(stack.data)-2])
+//@   modifies nothing
+
+//@ func memoryRevert
+//@   property C11
+//@   requires stack != nil && len(stack.data) >= 2
+//@   ensures [ovf]  result1 == memOvf(stack.data[len(stack.data)-1], stack.data[len(stack.data)-2])
+//@   ensures [size] !result1 ==> result0 == memSz(stack.data[len(stack.data)-1], stack.data[len(stack.data)-2])
+//@   modifies nothing
+
+//@ func memoryLog
+//@   property C11
+//@   requires stack != nil && len(stack.data) >= 2
+//@   ensures [ovf]  result1 == memOvf(stack.data[len(stack.data)-1], stack.data[len(stack.data)-2])
+//@   ensures [size] !result1 ==> result0 == memSz(stack.data[len(stack.data)-1], stack.data[len(stack.data)-2])
+//@   modifies nothing
+
+//@ func memoryAuthCall
+//@   property C11
+//@   requires stack != nil && len(stack.data) >= 9
+//@   ensures [ovf]  result1 == (memOvf(stack.data[len(stack.data)-8], stack.data[len(stack.data)-9]) || memOvf(stack.data[len(stack.data)-6], stack.data[len(stack.data)-7]))
+//@   ensures [size] !result1 ==> result0 == max64(memSz(stack.data[len(stack.data)-8], stack.data[len(stack.data)-9]), memSz(stack.data[len(stack.data)-6], stack.data[len(stack.data)-7]))
+//@   modifies nothing
+
+// ---------------------------------------------------------------------------------------------
+// Gas arithmetic (C11). Memory invariant: len(store) is a multiple of 32, at most 0x1FFFFFFFE0, and
+// lastGasCost is the total fee already charged for len(store)/32 words.
+// gasMag is the gas magnification in force (common.GasMagnification once proposal 026 is active).
+//
+//@ spec fn memWords(n uint64) uint64 = (n + 31) / 32
+//@ spec opaque fn memFee(w uint64) uint64 = w*3 + (w*w)/512
+//@ spec fn memGrows(oldLen uint64, newSize uint64) bool = newSize != 0 && memWords(newSize)*32 > oldLen
+//@ spec fn memExp(oldLen uint64, newSize uint64) uint64 = ite(memGrows(oldLen, newSize), memFee(memWords(newSize)) - memFee(oldLen/32), uint64(0))
+//@ spec fn memInv(storeLen uint64, last uint64) bool = storeLen % 32 == 0 && storeLen <= 137438953440 && last == memFee(storeLen/32)
+//@ spec fn magMul(x uint64, p26 bool) uint64 = ite(p26, x * 30, x)
+
+//@ func memoryGasCost
+//@   property C11
+//@   option intmode=math reveal=memFee
+//@   requires mem != nil && memInv(uint64(len(mem.store)), mem.lastGasCost)
+//@   ensures [err]    (result1 == nil) == (newMemSize <= 137438953440)
+//@   ensures [charge] result1 == nil ==> result0 == magMul(memExp(uint64(len(mem.store)), newMemSize), flag(IsProposal026))
+//@   ensures [bound]  result1 == nil ==> result0 <= magMul(72057594037927936, flag(IsProposal026)) && memExp(uint64(len(mem.store)), newMemSize) <= 72057594037927936
+//@   ensures [last]   result1 == nil && memGrows(uint64(len(mem.store)), newMemSize) ==> mem.lastGasCost == memFee(memWords(newMemSize))
+//@   ensures [keep]   !(result1 == nil && memGrows(uint64(len(mem.store)), newMemSize)) ==> mem.lastGasCost == old(mem.lastGasCost)
+//@   ensures [mono]   mem.lastGasCost >= old(mem.lastGasCost)
+//@   modifies mem.lastGasCost
+
+//@ func pureMemoryGascost
+//@   property C11
+//@   option intmode=math
+//@   requires mem != nil && memInv(uint64(len(mem.store)), mem.lastGasCost)
+//@   ensures [err]    (result1 == nil) == (memorySize <= 137438953440)
+//@   ensures [charge] result1 == nil ==> result0 == magMul(memExp(uint64(len(mem.store)), memorySize), flag(IsProposal026))
+//@   modifies mem.lastGasCost
+
+// The copy/hash/log gas functions add a per-word cost to the (already magnified) memory fee and magnify the
+// sum again. [nowrap] states that the 64-bit result is the exact value of that expression.
+//@ spec fn copyWords(n u256) uint64 = memWords(low64(n)) * 3
+//@ spec fn gasTotal(memfee uint64, extra uint64, p26 bool) u128 = ite(p26, (wide(memfee) * 30 + wide(extra)) * 30, wide(memfee) + wide(extra))
+
+//@ func memoryCopierGas$1
+//@   property C11
+//@   option intmode=math
+//@   requires mem != nil && memInv(uint64(len(mem.store)), mem.lastGasCost)
+//@   requires stack != nil && stackpos >= 0 && stackpos < len(stack.data)
+//@   requires [link] memorySize <= 137438953440 ==> stack.data[len(stack.data)-1-stackpos] <= zext(256, memorySize)
+//@   ensures [err]    result1 == nil ==> memorySize <= 137438953440
+//@   ensures [accept] memorySize <= 137438953440 && gasTotal(memExp(uint64(len(mem.store)), memorySize), copyWords(stack.data[len(stack.data)-1-stackpos]), flag(IsProposal026)) < 18446744073709551616 ==> result1 == nil
+//@   ensures [nowrap] result1 == nil ==> wide(result0) == gasTotal(memExp(uint64(len(mem.store)), memorySize), copyWords(stack.data[len(stack.data)-1-stackpos]), flag(IsProposal026))
+//@   modifies mem.lastGasCost
+
+//@ func gasSha3
+//@   property C11
+//@   option intmode=math
+//@   requires mem != nil && memInv(uint64(len(mem.store)), mem.lastGasCost)
+//@   requires stack != nil && len(stack.data) >= 2
+//@   requires [link] memorySize <= 137438953440 ==> stack.data[len(stack.data)-2] <= zext(256, memorySize)
+//@   ensures [err]    result1 == nil ==> memorySize <= 137438953440
+//@   ensures [accept] memorySize <= 137438953440 && gasTotal(memExp(uint64(len(mem.store)), memorySize), 2*copyWords(stack.data[len(stack.data)-2]), flag(IsProposal026)) < 18446744073709551616 ==> result1 == nil
+//@   ensures [nowrap] result1 == nil ==> wide(result0) == gasTotal(memExp(uint64(len(mem.store)), memorySize), 2*copyWords(stack.data[len(stack.data)-2]), flag(IsProposal026))
+//@   modifies mem.lastGasCost
+
+//@ func gasCreate2
+//@   property C11
+//@   option intmode=math
+//@   requires mem != nil && memInv(uint64(len(mem.store)), mem.lastGasCost)
+//@   requires stack != nil && len(stack.data) >= 3
+//@   requires [link] memorySize <= 137438953440 ==> stack.data[len(stack.data)-3] <= zext(256, memorySize)
+//@   ensures [err]    result1 == nil ==> memorySize <= 137438953440
+//@   ensures [accept] memorySize <= 137438953440 && gasTotal(memExp(uint64(len(mem.store)), memorySize), 2*copyWords(stack.data[len(stack.data)-3]), flag(IsProposal026)) < 18446744073709551616 ==> result1 == nil
+//@   ensures [nowrap] result1 == nil ==> wide(result0) == gasTotal(memExp(uint64(len(mem.store)), memorySize), 2*copyWords(stack.data[len(stack.data)-3]), flag(IsProposal026))
+//@   modifies mem.lastGasCost
+
+//@ func makeGasLog$1
+//@   property C11
+//@   option intmode=math
+//@   requires mem != nil && memInv(uint64(len(mem.store)), mem.lastGasCost)
+//@   requires stack != nil && len(stack.data) >= 2 && n <= 4
+//@   requires [link] memorySize <= 137438953440 ==> stack.data[len(stack.data)-2] <= zext(256, memorySize)
+//@   ensures [err]    result1 == nil ==> memorySize <= 137438953440
+//@   ensures [accept] memorySize <= 137438953440 && gasTotal(memExp(uint64(len(mem.store)), memorySize), 375 + n*375 + 8*low64(stack.data[len(stack.data)-2]), flag(IsProposal026)) < 18446744073709551616 ==> result1 == nil
+//@   ensures [nowrap] result1 == nil ==> wide(result0) == gasTotal(memExp(uint64(len(mem.store)), memorySize), 375 + n*375 + 8*low64(stack.data[len(stack.data)-2]), flag(IsProposal026))
+//@   modifies mem.lastGasCost
+
+//@ func callGas
+//@   property C11
+//@   requires callCost != nil
+//@   ensures [le]  result1 == nil && isEip150 ==> result0 <= availableGas - base - (availableGas - base)/64 || u256(callCost) == zext(256, result0)
+//@   ensures [cap] result1 == nil && isEip150 && base <= availableGas ==> result0 <= availableGas - base
+//@   ensures [req] result1 == nil ==> zext(256, result0) <= u256(callCost) || result0 == availableGas - base - (availableGas - base)/64
+//@   ensures [err] result1 != nil ==> u256(callCost) >= 18446744073709551616
+//@   modifies nothing
+
+//@ func gasExpFrontier
+//@   property C11
+//@   requires stack != nil && len(stack.data) >= 2
+//@   ensures [ok] result1 == nil && result0 <= 30 * (10 + 32*10)
+//@   modifies nothing
+
+//@ func gasExpEIP158
+//@   property C11
+//@   requires stack != nil && len(stack.data) >= 2
+//@   ensures [ok] result1 == nil && result0 <= 30 * (10 + 32*50)
+//@   modifies nothing
